@@ -113,7 +113,14 @@ def signature(module) -> dict:
         "nrps": module.is_nrps(), "coa_ligase": module.is_coa_ligase(), "start": module.start, "end": module.end,
         "monomers": [module.get_monomer(base) for base in ("", "mal", "mmal", "X", "AHBA")],
         "components": [(c.label, c.locus, list(c.subtypes), c.classification) for c in module.components],
+        # the hits themselves, with their nested subtype hits: position, e-value and score to the last digit
+        "domains": [_hit_view(c.domain) for c in module.components],
     }
+
+
+def _hit_view(hit):
+    return (hit.hit_id, hit.query_start, hit.query_end, repr(float(hit.evalue)), repr(float(hit.bitscore)),
+            [_hit_view(inner) for inner in hit.internal_hits])
 
 
 class _State:
